@@ -5,7 +5,7 @@ import ast
 
 from ..cfg import CFG
 from ..core import (AnalysisError, DefRef, NotConst, Ref, call_name, calls_in, dotted, enclosing_function, func_params, get_kw,
-                    norm, qualname_of, walk_no_nested)
+                    norm, qualname_of, walk_no_nested, expand_aliases, single_assign_aliases)
 from .c05 import check_naive_utc
 from .packer_common import pack_branches, unpack_branches
 
@@ -182,27 +182,32 @@ def run(ctx):
     obj = func_params(pack_obj)[1]
     cfg = CFG(pack_obj)
     forms = {}
+    pal = single_assign_aliases(pack_obj)
+    from .. import logic
+
     for st, sub, payload in dtb[0].subtype_exprs:
-        conds = [(t, p) for t, p, _ in cfg.facts_at(cfg.node_of(st).id) if "tzinfo" in t]
+        prem = [(expand_aliases(e0, pal), p0) for e0, p0 in logic.facts_as_premises(cfg.facts_at(cfg.node_of(st).id))]
+        prem = [(e0, p0) for e0, p0 in prem if "tzinfo" in norm(e0)]
         if isinstance(payload, ast.Tuple):
-            elts = [norm(e.value) if isinstance(e, ast.Starred) else norm(e) for e in payload.elts]
-            forms[tuple(elts)] = (conds, st)
+            elts = [norm(expand_aliases(e.value if isinstance(e, ast.Starred) else e, pal)) for e in payload.elts]
+            forms[tuple(elts)] = (prem, st)
     utc_form = (f"{obj}.timetuple()[:6]", f"{obj}.microsecond")
     iso_form = (f"{obj}.isoformat()",)
     ctx.check(set(forms) == {utc_form, iso_form}, "R13.3", "pack_obj:datetime:forms", f"timestamp payload forms are {sorted(forms)}; the format has the 7 components "
               "(*timetuple()[:6], microsecond) for UTC and (isoformat(),) otherwise - any other form (epoch float, truncated offset) loses precision or the offset",
               dtb[0].if_node, "7 components for UTC / ISO text otherwise", key="R13.3:pack_obj:datetime:forms")
+    tz = f"{obj}.tzinfo"
+    utc_names = [g for g in ("UTC", "timezone.utc") if (lambda r: isinstance(r, Ref) and r.name == "datetime.timezone.utc")(_try_fold(prog, pm, g))]
     if utc_form in forms:
-        conds, st = forms[utc_form]
-        whole = [t for t, p in conds if p and " or " in t]
-        ok = any(("tzinfo is None" in t) and ("tzinfo == UTC" in t or "tzinfo is UTC" in t or "== timezone.utc" in t) for t in whole)
-        utc = prog.fold(pm, ast.parse("UTC").body[0].value) if prog.resolve_global(pm, "UTC") is not None else None
-        ctx.check(ok and isinstance(utc, Ref) and utc.name == "datetime.timezone.utc", "R13.3", "pack_obj:datetime:utc-condition",
-                  f"the component form is used under {sorted(t for t, p in conds if p)}: a non-UTC value packed as components loses its offset", st,
+        prem, st = forms[utc_form]
+        goal = logic.parse(" or ".join([f"{tz} is None"] + [f"{tz} == {u}" for u in utc_names] + [f"{tz} is {u}" for u in utc_names]))
+        ok = bool(utc_names) and logic.implies(prem, goal)
+        ctx.check(ok, "R13.3", "pack_obj:datetime:utc-condition",
+                  f"the component form is used under {sorted(norm(e0) + '=' + str(p0) for e0, p0 in prem)}: a non-UTC value packed as components loses its offset", st,
                   "component form only when tzinfo is None or == UTC")
     if iso_form in forms:
-        conds, st = forms[iso_form]
-        ctx.check(any((not p) and "tzinfo is None" in t for t, p in conds), "R13.3", "pack_obj:datetime:iso-condition", "ISO form is not the else-branch of the UTC test", st,
+        prem, st = forms[iso_form]
+        ctx.check(logic.implies(prem, logic.parse(f"{tz} is not None")), "R13.3", "pack_obj:datetime:iso-condition", "ISO form is not the else-branch of the UTC test", st,
                   "ISO text for every other tzinfo")
     unpack_obj = prog.func("flow.record.packer.RecordPacker.unpack_obj")
     _, ubs = unpack_branches(prog, unpack_obj)
@@ -292,6 +297,13 @@ def run(ctx):
                          c, key=f"R13.5:{modname}:float-epoch")
     ctx.ok("R13.5", "serialisers:no-float-epoch", f"{scanned} call sites scanned in the serialiser modules", None)
     ctx.floor("R13.5", "call sites scanned", scanned, 100)
+
+
+def _try_fold(prog, module, text):
+    try:
+        return prog.fold(module, ast.parse(text, mode="eval").body)
+    except (NotConst, AnalysisError, KeyError):
+        return None
 
 
 def _may_include_datetime(prog, module, isinstance_call) -> bool:
